@@ -89,6 +89,27 @@ class RegAccessQueue:
         return (
             req_type == self._queue[-1].access_type
             and req_owner in self._queue[-1].reqs
+        ) or self._can_write_after_own_read(req_type, req_owner)
+
+    def _can_write_after_own_read(
+        self, req_type: object, req_owner: object
+    ) -> bool:
+        """Test if a write may be served together with its owner's read.
+
+        `self` is this access request queue.
+        `req_type` is the request type.
+        `req_owner` is the request owner.
+        An instruction reading and writing the same register is the
+        only reader left ahead of its own write.
+
+        """
+        return (
+            req_type == AccessType.WRITE
+            and len(self._queue) > 1
+            and self._queue[-1].access_type == AccessType.READ
+            and self._queue[-1].reqs == {req_owner}
+            and self._queue[-2].access_type == AccessType.WRITE
+            and req_owner in self._queue[-2].reqs
         )
 
     def dequeue(self, req_owner: object) -> None:
